@@ -840,7 +840,9 @@ def parse_tag(text: str, parser: Optional[Parser]) -> Tuple[str, List[TagAttr]]:
                     quote_char = taken_n(1)  # " or '
 
                     # NOTE: Handle escaped quotes like \" or \', and continue until we reach the closing quote.
-                    value = take_until([quote_char], ignore=["\\" + quote_char])
+                    # An escaped backslash is skipped as a pair too, as in Django's own string literals, so that
+                    # a string that ends with a backslash, e.g. `"C:\\"`, is closed by its closing quote.
+                    value = take_until([quote_char], ignore=["\\\\", "\\" + quote_char])
 
                     if is_next_token([quote_char]):
                         add_token(quote_char)
